@@ -311,6 +311,124 @@ func c27cRace(tr *verifh.T, r *verifh.Rand, round int) {
 	}
 }
 
+// c27cLookups: lookups overlapping a cleanup pass that really removes entries. P peers of one torrent,
+// every other one expired (exact: the clock does not move during the round); several goroutines loop
+// GetPeers while cleanupExpiredPeerEntries runs once. The read section and the sweep are atomic w.r.t.
+// each other, so for every interleaving: a result lists no peer id twice, every returned peer carries its
+// latest announcement, a lookup asking for everything gets all P peers or exactly the P/2 fresh ones,
+// and a lookup that starts after the pass returned gets no expired peer.
+func c27cLookups(tr *verifh.T, r *verifh.Rand, round int) {
+	const ttl = 10
+	np := 64 + 2*r.Intn(33)
+	clk := newC27Clock()
+	s := NewLocalStore(LocalConfig{TTL: ttl * time.Second}, clk)
+	defer s.Close()
+	var st Store = s
+	h := c27Hashes[0]
+	ids := make([]core.PeerID, np)
+	idx := map[core.PeerID]int{}
+	for i := range ids {
+		copy(ids[i][:], fmt.Sprintf("c27cL-%014d", i))
+		idx[ids[i]] = i
+	}
+	ver := make([]int, np)
+	announce := func(i int) {
+		ver[i]++
+		if err := st.UpdatePeer(h, core.NewPeerInfo(ids[i], c27IP(1+i%3), ver[i], false, i%5 == 0)); err != nil {
+			tr.PropFail("update-error", verifh.Str(err.Error()))
+		}
+	}
+	for _, i := range r.Perm(np) {
+		announce(i)
+	}
+	clk.add(6)
+	for i := 0; i < np; i += 2 {
+		announce(i) // the even peers renew: fresh until +16
+	}
+	clk.add(5) // the odd peers' announcements (expiring at +10) are now expired
+	fresh := func(i int) bool { return i%2 == 0 }
+	var fails sync.Map
+	fail := func(key, detail string) { fails.LoadOrStore(key, detail) }
+	var cleanStarted, cleanDone, stop int32
+	var overlaps, lookups int64
+	nl := 3 + r.Intn(3)
+	ns := []int{np + 10, np, np / 2, np / 2, np / 3, 5}
+	ready := make(chan struct{}, nl)
+	start := make(chan struct{})
+	var wg sync.WaitGroup
+	for l := 0; l < nl; l++ {
+		wg.Add(1)
+		go func(l int) {
+			defer wg.Done()
+			ready <- struct{}{}
+			<-start
+			for k := 0; k < 12 || (atomic.LoadInt32(&stop) == 0 && k < 60); k++ {
+				n := ns[(l+k)%len(ns)]
+				doneBefore := atomic.LoadInt32(&cleanDone)
+				peers, err := st.GetPeers(h, n)
+				startedAfter := atomic.LoadInt32(&cleanStarted)
+				atomic.AddInt64(&lookups, 1)
+				if doneBefore == 0 && startedAfter == 1 {
+					atomic.AddInt64(&overlaps, 1)
+				}
+				if err != nil {
+					fail("get-error", err.Error())
+				}
+				if len(peers) > n {
+					fail("too-many", fmt.Sprintf("get n=%d returned %d", n, len(peers)))
+				}
+				seen := map[core.PeerID]bool{}
+				for _, pi := range peers {
+					i, known := idx[pi.PeerID]
+					switch {
+					case !known:
+						fail("unknown-peer", c27PeerTok(pi))
+					case seen[pi.PeerID]:
+						fail("duplicate-peer", fmt.Sprintf("get n=%d of %d peers returned peer %d twice (lookup overlapping the cleanup: %v)", n, np, i, doneBefore == 0 && startedAfter == 1))
+					case pi.Port != ver[i] || pi.IP != c27IP(1+i%3) || pi.Complete != (i%5 == 0) || pi.Origin:
+						fail("stale-announcement", fmt.Sprintf("peer %d returned as %s, latest version %d", i, c27PeerTok(pi), ver[i]))
+					case doneBefore == 1 && !fresh(i):
+						fail("expired-after-cleanup", fmt.Sprintf("a lookup that started after the cleanup pass had returned got expired peer %d", i))
+					}
+					seen[pi.PeerID] = true
+				}
+				if n >= np && len(peers) != np && len(peers) != np/2 {
+					fail("torn-lookup", fmt.Sprintf("get n=%d of %d peers returned %d: neither all stored nor exactly the fresh ones", n, np, len(peers)))
+				}
+				if doneBefore == 1 && n >= np/2 && len(peers) != np/2 {
+					fail("fresh-forgotten", fmt.Sprintf("after the cleanup get n=%d returned %d of the %d fresh peers", n, len(peers), np/2))
+				}
+			}
+		}(l)
+	}
+	for l := 0; l < nl; l++ {
+		<-ready
+	}
+	close(start)
+	for j := r.Intn(4); j > 0; j-- {
+		runtime.Gosched() // let some lookups begin first
+	}
+	atomic.StoreInt32(&cleanStarted, 1)
+	s.cleanupExpiredPeerEntries()
+	atomic.StoreInt32(&cleanDone, 1)
+	atomic.StoreInt32(&stop, 1)
+	wg.Wait()
+	tr.Cfg()
+	ov := "0"
+	if atomic.LoadInt64(&overlaps) > 0 {
+		ov = "1"
+	}
+	tr.Op([]string{"lookups", strconv.Itoa(round), "peers=" + strconv.Itoa(np), "overlapping-cleanup=" + ov}, "ok")
+	fails.Range(func(k, v interface{}) bool {
+		tr.PropFail(k.(string), verifh.Str(v.(string)))
+		return true
+	})
+	tr.End()
+	tr.Count("lookup_rounds", 1)
+	tr.Count("lookups", int(atomic.LoadInt64(&lookups)))
+	tr.Count("lookups_overlapping_cleanup", int(atomic.LoadInt64(&overlaps)))
+}
+
 func TestVerif_C27c(t *testing.T) {
 	tr := verifh.Open("psc")
 	defer tr.Close()
@@ -321,11 +439,15 @@ func TestVerif_C27c(t *testing.T) {
 		for i := 0; i < 2000*(1+len(cases)); i++ {
 			c27cRound(tr, r, i)
 			c27cRace(tr, r, i)
+			c27cLookups(tr, r, i)
 		}
 		return
 	}
 	for i := 0; i < verifh.Scale(1500, 6000); i++ {
 		c27cRace(tr, r, i)
+	}
+	for i := 0; i < verifh.Scale(1500, 8000); i++ {
+		c27cLookups(tr, r, i)
 	}
 	for i := 0; i < verifh.Scale(3000, 30000); i++ {
 		c27cRound(tr, r, i)
